@@ -176,6 +176,20 @@ theorem stepTickBegin_chan {s t m s'} (hs : stepTickBegin s t m = some s') :
     · simp at hs
   · simp at hs
 
+theorem stepExtPush_chan {s b s'} (hs : stepExtPush s b = some s') : SameOrEnq s.chan s'.chan := by
+  unfold stepExtPush at hs; frame_crush hs
+
+theorem stepExtBegin_chan {s b m s'} (hs : stepExtBegin s b m = some s') :
+    ChanStep s.chan s'.chan := by
+  unfold stepExtBegin at hs
+  split at hs
+  · split at hs
+    · simp at hs; subst hs
+      rename_i hq _
+      exact .rename _ _ _ _ hq rfl
+    · simp at hs
+  · simp at hs
+
 theorem stepTime_chan {s t s'} (hs : stepTime s t = some s') : s'.chan = s.chan := by
   unfold stepTime at hs; frame_crush hs
 
@@ -248,6 +262,8 @@ theorem step_chan {w s l s'} (hs : step w s l = some s') : ChanSteps s.chan s'.c
   case ctxWeak => exact .one (.same (stepCtxWeak_chan hs))
   case fire => exact .one (stepFire_chan hs).toChanStep
   case tickBegin => exact .one (stepTickBegin_chan hs)
+  case extPush => exact .one (stepExtPush_chan hs).toChanStep
+  case extBegin => exact .one (stepExtBegin_chan hs)
   case time => exact .one (.same (stepTime_chan hs))
   case cancel => exact .one (.drop (stepCancel_chan hs))
   case taskPanic =>
